@@ -18,6 +18,7 @@ use cryptoxide::{blake2b::Blake2b, digest::Digest};
 use pallas_codec::minicbor;
 use pallas_codec::utils::{Bytes, CborWrap, MaybeIndefArray, NonEmptyKeyValuePairs, NonEmptySet, Nullable, Set};
 use pallas_primitives::conway::{
+    Anchor, GovAction, GovActionId, ProposalProcedure, Vote, Voter, VotingProcedure,
     Certificate, CostModels, DatumOption, ExUnits, Language, MintedTx, PlutusScript,
     PostAlonzoTransactionOutput, PseudoScript, PseudoTransactionOutput, Redeemer, RedeemerTag,
     Redeemers, RedeemersKey, RedeemersValue, StakeCredential, TransactionBody, TransactionInput,
@@ -56,6 +57,10 @@ pub enum Purpose {
     Spend { inline_datum: bool },
     Withdraw,
     Cert,
+    /// Plutus V3 only: the script votes as a DRep.
+    Vote,
+    /// Plutus V3 only: the script is the guardrail of a treasury-withdrawal proposal.
+    Propose,
 }
 
 #[derive(Clone, Debug, Serialize, Deserialize, PartialEq)]
@@ -261,6 +266,8 @@ pub fn assemble(sc: &Scenario) -> Result<Assembled, String> {
     let mut mint: Vec<([u8; 28], usize)> = vec![];
     let mut withdrawals: Vec<(Vec<u8>, usize)> = vec![];
     let mut certs: Vec<(Certificate, usize)> = vec![];
+    let mut voters: Vec<([u8; 28], usize)> = vec![];
+    let mut proposals: Vec<([u8; 28], usize)> = vec![];
     // spend: (input, script idx, datum)
     let mut spends: Vec<(TransactionInput, usize, PlutusData)> = vec![];
     let fresh_input = |rng: &mut Rng| TransactionInput {
@@ -287,6 +294,8 @@ pub fn assemble(sc: &Scenario) -> Result<Assembled, String> {
                 Certificate::StakeDeregistration(StakeCredential::ScriptHash(pallas_crypto_hash28(&b.hash))),
                 i,
             )),
+            Purpose::Vote => voters.push((b.hash, i)),
+            Purpose::Propose => proposals.push((b.hash, i)),
             Purpose::Spend { inline_datum } => {
                 let input = fresh_input(&mut rng);
                 let datum = uplc::ast::Data::constr(0, vec![int(i as i64), uplc::ast::Data::bytestring(rng.bytes(6))]);
@@ -319,6 +328,7 @@ pub fn assemble(sc: &Scenario) -> Result<Assembled, String> {
     inputs.dedup();
     mint.sort_by(|a, b| a.0.cmp(&b.0));
     withdrawals.sort_by(|a, b| a.0.cmp(&b.0));
+    voters.sort_by(|a, b| a.0.cmp(&b.0));
 
     let mut plan: Vec<PlannedRedeemer> = vec![];
     for (input, si, datum) in &spends {
@@ -354,6 +364,25 @@ pub fn assemble(sc: &Scenario) -> Result<Assembled, String> {
             tag: RedeemerTag::Reward,
             index: pos as u32,
             data: int(400 + *si as i64),
+            script: *si,
+            datum: None,
+        });
+    }
+
+    for (pos, (_, si)) in voters.iter().enumerate() {
+        plan.push(PlannedRedeemer {
+            tag: RedeemerTag::Vote,
+            index: pos as u32,
+            data: int(500 + *si as i64),
+            script: *si,
+            datum: None,
+        });
+    }
+    for (pos, (_, si)) in proposals.iter().enumerate() {
+        plan.push(PlannedRedeemer {
+            tag: RedeemerTag::Propose,
+            index: pos as u32,
+            data: int(600 + *si as i64),
             script: *si,
             datum: None,
         });
@@ -482,8 +511,35 @@ pub fn assemble(sc: &Scenario) -> Result<Assembled, String> {
         collateral_return: None,
         total_collateral: None,
         reference_inputs: NonEmptySet::from_vec(reference_inputs.clone()),
-        voting_procedures: None,
-        proposal_procedures: None,
+        voting_procedures: NonEmptyKeyValuePairs::from_vec(
+            voters
+                .iter()
+                .map(|(h, si)| {
+                    (
+                        Voter::DRepScript(pallas_crypto_hash28(h)),
+                        NonEmptyKeyValuePairs::from_vec(vec![(
+                            GovActionId { transaction_id: pallas_crypto_hash32(&[*si as u8 + 1; 32]), action_index: 0 },
+                            VotingProcedure { vote: Vote::Yes, anchor: Nullable::Null },
+                        )])
+                        .unwrap(),
+                    )
+                })
+                .collect(),
+        ),
+        proposal_procedures: NonEmptySet::from_vec(
+            proposals
+                .iter()
+                .map(|(h, si)| ProposalProcedure {
+                    deposit: 1_000_000 + *si as u64,
+                    reward_account: Bytes::from(script_reward_account(h)),
+                    gov_action: GovAction::TreasuryWithdrawals(
+                        pallas_codec::utils::KeyValuePairs::from(vec![(Bytes::from(script_reward_account(h)), 5u64)]),
+                        Nullable::Some(pallas_crypto_hash28(h)),
+                    ),
+                    anchor: Anchor { url: "https://example.invalid".into(), content_hash: pallas_crypto_hash32(&[7u8; 32]) },
+                })
+                .collect(),
+        ),
         treasury_value: None,
         donation: None,
     };
@@ -705,21 +761,33 @@ pub fn execute(sc: &Scenario) -> Result<Outcome, String> {
     };
     // Reference costs are computed on the complete transaction (no piece dropped): when something
     // is dropped the expectation is simply "must fail".
+    // A complete transaction for which no script context exists in some script's language (e.g. a
+    // Plutus V2 script next to Conway voting / proposal procedures, which a V2 context cannot
+    // express) must be refused, exactly like one with a missing piece.
+    let mut no_context = false;
     let steps = if asm.dropped.is_empty() {
         match guard(|| reference_costs(sc, &asm, &tx)) {
             Ok(Some(s)) => s,
-            Ok(None) => return Err("reference: cannot build script context for a complete transaction".into()),
+            Ok(None) => {
+                no_context = true;
+                vec![]
+            }
             Err(p) => return Err(format!("reference panicked: {} @ {}", p.message, p.location)),
         }
     } else {
         vec![]
     };
     out.evals += steps.len();
-    let exp = expected(sc, &asm, &steps);
+    let exp = if no_context {
+        Expected::MustFail("script-context:not expressible in a script's language".into())
+    } else {
+        expected(sc, &asm, &steps)
+    };
     out.expected = match &exp {
         Expected::Success(_) => "success".into(),
         Expected::FailsAt { budget: true, .. } => "out-of-budget".into(),
         Expected::FailsAt { .. } => "script-failure".into(),
+        Expected::MustFail(w) if w.starts_with("script-context") => "context-not-expressible".into(),
         Expected::MustFail(_) => "missing-piece".into(),
     };
     let slot = SlotConfig {
@@ -833,7 +901,9 @@ pub fn execute(sc: &Scenario) -> Result<Outcome, String> {
                             || (tag == "reward" && t.to_lowercase().contains("withdraw"))
                             || (tag == "cert" && (t.to_lowercase().contains("publish") || t.to_lowercase().contains("cert")))
                             || (tag == "spend" && t.to_lowercase().contains("spend"))
-                            || (tag == "mint" && t.to_lowercase().contains("mint"));
+                            || (tag == "mint" && t.to_lowercase().contains("mint"))
+                            || (tag == "vote" && t.to_lowercase().contains("vot"))
+                            || (tag == "propose" && t.to_lowercase().contains("propos"));
                         if !same_tag || i != index {
                             out.violations.push((
                                 "fails-at-wrong-redeemer".into(),
@@ -909,11 +979,14 @@ fn gen_scenario(rng: &mut Rng) -> Scenario {
     let mut scripts = vec![];
     for i in 0..n {
         let version = if with_v1 { *rng.pick(&[1u8, 1, 2]) } else { *rng.pick(&[2u8, 3, 3]) };
-        let purpose = match rng.below(6) {
+        let purpose = match rng.below(8) {
             0 | 1 => Purpose::Mint,
             2 | 3 => Purpose::Spend { inline_datum: !with_v1 && rng.chance(1, 2) },
             4 => Purpose::Withdraw,
-            _ => Purpose::Cert,
+            5 => Purpose::Cert,
+            6 if version == 3 => Purpose::Vote,
+            7 if version == 3 => Purpose::Propose,
+            _ => Purpose::Mint,
         };
         let behaviour = match rng.below(10) {
             0 => Behaviour::Fail,
@@ -1100,7 +1173,7 @@ impl Engine for TxEngine {
             ctx.stats.inc(if sc.with_cost_models { "cost_models_supplied" } else { "cost_models_absent" }, 1);
             for s in &sc.scripts {
                 ctx.stats.inc(&format!("script_v{}", s.version), 1);
-                ctx.stats.inc(&format!("purpose_{}", match s.purpose { Purpose::Mint => "mint", Purpose::Spend { inline_datum: true } => "spend_inline_datum", Purpose::Spend { .. } => "spend_hashed_datum", Purpose::Withdraw => "withdraw", Purpose::Cert => "publish" }), 1);
+                ctx.stats.inc(&format!("purpose_{}", match s.purpose { Purpose::Mint => "mint", Purpose::Spend { inline_datum: true } => "spend_inline_datum", Purpose::Spend { .. } => "spend_hashed_datum", Purpose::Withdraw => "withdraw", Purpose::Cert => "publish", Purpose::Vote => "vote", Purpose::Propose => "propose" }), 1);
                 if s.by_reference {
                     ctx.stats.inc("reference_scripts", 1);
                 }
